@@ -61,6 +61,20 @@ impl<E: Edge, N: InnerNode<E>> DiagramRules<E, N, ZBDDTerminal> for ZBDDRules {
     fn cofactors(_tag: E::Tag, node: &N) -> Self::Cofactors<'_> {
         node.children()
     }
+
+    #[inline]
+    fn cofactor_skipped<M: Manager<Edge = E, InnerNode = N, Terminal = ZBDDTerminal>>(
+        manager: &M,
+        edge: &E,
+        n: usize,
+    ) -> E {
+        if n == HI {
+            // no set of the family contains the variable of a skipped level
+            manager.get_terminal(ZBDDTerminal::Empty).unwrap()
+        } else {
+            manager.clone_edge(edge)
+        }
+    }
 }
 
 #[inline(always)]
